@@ -67,6 +67,7 @@ type Exec struct {
 	LedDevice, LedCapture, LedCancel Value
 	lastClock                        *smt.Term
 	catchers                         []*catcher
+	skipDir, skipAll                 Value
 	recoverVal                       Value
 	ctxErr                           Value
 	ufMemo                           map[string][]Value
